@@ -49,19 +49,25 @@ for d in dirs:
     what = ''
     notes = os.path.join(sd, 'notes.md')
     kind = meta.get('kind', 'break')
-    rows.append((d, kind, 'VIOLATION' if own and own[0] == 'VIOLATION' else (own[0] if own else 'silent'),
+    ho = meta.get('heldout', {})
+    held = ho.get('own', '')
+    if held and ho.get('others'):
+        held += ' (+' + ','.join(sorted(p for p, st in ho['others'].items()
+                                        if st == 'VIOLATION')) + ')' \
+            if any(st == 'VIOLATION' for st in ho['others'].values()) else ''
+    rows.append((d, kind, held, 'VIOLATION' if own and own[0] == 'VIOLATION' else (own[0] if own else 'silent'),
                  ', '.join('%s' % p for p in sorted(fired) if p != pid and fired[p][0] == 'VIOLATION'),
                  ', '.join(rules)))
-out = ['| change | kind | own check | other checks firing | rules |', '|---|---|---|---|---|']
+out = ['| change | kind | own check when collected (held-out) | own check now | other checks firing now | rules |', '|---|---|---|---|---|---|']
 for r in rows:
-    out.append('| %s | %s | %s | %s | %s |' % r)
+    out.append('| %s | %s | %s | %s | %s | %s |' % r)
 n_break = [r for r in rows if r[1] == 'break']
-n_caught = [r for r in n_break if r[2] == 'VIOLATION']
+n_caught = [r for r in n_break if r[3] == 'VIOLATION']
 n_ref = [r for r in rows if r[1] == 'refactoring']
-n_ref_silent = [r for r in n_ref if r[2] == 'silent' and not r[3]]
+n_ref_silent = [r for r in n_ref if r[3] == 'silent' and not r[4]]
 summary = ('%d of %d seeded breaking changes are reported as VIOLATION by the check of their own property '
            '(%d more only as ANALYSIS-ERROR/exit 2); %d of %d behaviour-preserving refactorings leave every check silent.'
-           % (len(n_caught), len(n_break), len([r for r in n_break if r[2] == 'ANALYSIS-ERROR']),
+           % (len(n_caught), len(n_break), len([r for r in n_break if r[3] == 'ANALYSIS-ERROR']),
               len(n_ref_silent), len(n_ref)))
 text = summary + '\n\n' + '\n'.join(out) + '\n'
 dp = os.path.join(HERE, 'DESIGN.md')
@@ -72,5 +78,5 @@ if a in s and not only:
     open(dp, 'w').write(s)
 print(summary)
 for r in rows:
-    if (r[1] == 'break' and r[2] != 'VIOLATION') or (r[1] == 'refactoring' and (r[2] != 'silent' or r[3])):
+    if (r[1] == 'break' and r[3] != 'VIOLATION') or (r[1] == 'refactoring' and (r[3] != 'silent' or r[4])):
         print('  ', r)
